@@ -2,6 +2,10 @@
 #![allow(clippy::all)]
 #![allow(dead_code)]
 
+mod bufeng;
+mod bufmut;
+mod bufnode;
+mod bufrun;
 mod hist;
 mod histrun;
 mod oalloc;
@@ -17,6 +21,8 @@ fn main() {
     let code = match args.pos.first().map(|s| s.as_str()) {
         Some("hist") => histrun::main_hist(&args),
         Some("tbl") => tbl::main_tbl(&args),
+        Some("buf") => bufrun::main_buf(&args),
+        Some("bufmut") => bufmut::main_bufmut(&args),
         _ => {
             eprintln!("usage: vf <hist|buf|tbl|fault|recycle|digest> [--key value]...");
             2
